@@ -283,3 +283,9 @@ def l9_month_numbers(ctx):
 
 
 RULES += [('L8', l8_first_letter), ('D6', l9_month_numbers)]
+
+
+# a rule, a date pattern or a unit registered for a language is tokenised in that language: shared with C18 (Y5)
+from .C18 import y5_history_free as _y5   # noqa: E402
+
+RULES.append(('Y5', _y5))
